@@ -1,3 +1,4 @@
+import Treepath.Proofs.Descends
 import Treepath.Proofs.MutateLemmas
 import Treepath.Proofs.NaturalNext
 import Treepath.Proofs.RefoldHandles
@@ -226,5 +227,38 @@ theorem del_is_one_tree_update (h h' : Heap) (root : Val) (j : J) (m p : MNode V
     (hh : Handle.ofNode m = some hd) (ha : hd.del h = .ok (h', hd')) :
     ∃ j', J.popAt j p.loc m.dataName = some j' ∧ DocInv h' root j' :=
   del_refines h h' root j m p hd hd' hi hgen hm hh ha
+
+/-! ### a search from a `Match` hangs its results below that Match's own objects -/
+
+/-- the cells of anything that descends from the nested root `imag sm` end in the cells of
+`sm.parent, sm.parent.parent, …`; the part in front is never empty -/
+theorem cells_below_nested_root (sm m : MNode Val) (hd : Desc (.imag sm) m) :
+    ∃ own, own ≠ [] ∧ m.cells = own ++ sm.cells.tail := by
+  induction hd with
+  | refl => exact ⟨[cellOf (.imag sm)], by simp, by simp [MNode.cells]⟩
+  | @child p nm d _ ih =>
+    obtain ⟨own, _, he⟩ := ih
+    exact ⟨cellOf (.child p nm d) :: own, by simp, by simp [MNode.cells, he]⟩
+  | @imag p _ ih =>
+    obtain ⟨own, hne, he⟩ := ih
+    cases own with
+    | nil => exact absurd rfl hne
+    | cons c own' => exact ⟨cellOf (.imag p) :: own', by simp, by simp [MNode.cells, he]⟩
+  | @par rm f _ ih =>
+    obtain ⟨own, _, he⟩ := ih
+    exact ⟨cellOf (.par rm f) :: own, by simp, by simp [MNode.cells, he]⟩
+
+/-- **results of `find_matches(q, match)` share the start match's ancestors**: for every result
+`m` of a search started from the Match `sm`, the chain `m, m.parent, …` consists of objects of
+its own followed by exactly the chain `sm.parent, sm.parent.parent, …` of the start match —
+the same `TraverserMatch` objects (this is what the cell heap of the handle histories
+implements: the shared tail is not copied).  Replacing a container through `sm.parent`
+therefore also redirects the writes of matches found from `sm`. -/
+theorem nested_results_share_the_start_chain (h : Heap) (steps : Array (Step Val)) (sm : MNode Val) (fuel : Nat) :
+    ∀ m ∈ (drain (wcx h) steps (.nested sm) fuel freshIter).1,
+      ∃ own, own ≠ [] ∧ m.cells = own ++ sm.cells.tail ∧ own.length = m.cells.length - sm.cells.tail.length := by
+  intro m hm
+  obtain ⟨own, hne, he⟩ := cells_below_nested_root sm m (drain_fresh_desc (wcx h) steps (.nested sm) fuel m hm)
+  exact ⟨own, hne, he, by rw [he]; simp⟩
 
 end Treepath.C14
